@@ -398,3 +398,304 @@ Proof.
   unfold rg_loop, rg_ret in E1; cbn [fn_body cf_re_groupcount] in E1.
   change (Z.of_nat 0) with 0 in E1. rewrite E1, E2. reflexivity.
 Qed.
+
+(* ================================================================== re_read (rset.c) *)
+(* char *re_read(char **src): the model is SubstDefs.re_read / re_read_loop (C14; the same scan is modelled in
+   ExDefs.v for C05/C06/C15 and in SearchDefs.v for C13).  What matters is WHICH bytes end up in the returned string and
+   WHERE *src stops: a backslash followed by the delimiter drops the backslash, a backslash followed by anything else
+   keeps both, the scan stops at the unescaped delimiter or at the terminator. *)
+From NV Require SubstDefs.
+
+Definition sc (c : N) : Z := wrap I8 (Z.of_N c).              (* the char that holds byte c *)
+Definition cell (c : N) : val := VInt (sc c).
+
+(* the text the model returns, and the offset where its scan stops (the unescaped delimiter, or the end) *)
+Definition rr_txt (delim : N) (t : bytes) : bytes := fst (SubstDefs.re_read_loop delim t).
+Fixpoint rr_stop (delim : N) (t : bytes) : nat :=
+  match t with
+  | [] => 0%nat
+  | c :: t1 =>
+    if (c =? delim)%N then 0%nat
+    else if (c =? 92)%N then match t1 with [] => 1%nat | _ :: t2 => S (S (rr_stop delim t2)) end
+    else S (rr_stop delim t1)
+  end.
+Lemma rr_txt_cons delim c t1 :
+  rr_txt delim (c :: t1) =
+  if (c =? delim)%N then []
+  else if (c =? 92)%N then
+    match t1 with
+    | [] => [c]
+    | d :: t2 => if (d =? delim)%N then d :: rr_txt delim t2 else 92%N :: d :: rr_txt delim t2
+    end
+  else c :: rr_txt delim t1.
+Proof.
+  unfold rr_txt. cbn [SubstDefs.re_read_loop]. destruct (c =? delim)%N; [reflexivity|].
+  destruct (c =? 92)%N.
+  - destruct t1 as [|d t2]; [reflexivity|]. destruct (SubstDefs.re_read_loop delim t2) as [t r].
+    destruct (d =? delim)%N; reflexivity.
+  - destruct (SubstDefs.re_read_loop delim t1) as [t r]. reflexivity.
+Qed.
+Lemma rr_stop_le delim : forall n t, (length t <= n)%nat -> (rr_stop delim t <= length t)%nat.
+Proof.
+  induction n as [|n IH]; intros t H; destruct t as [|c t1]; cbn [length] in *; try lia; cbn [rr_stop]; try lia.
+  destruct (c =? delim)%N; [lia|]. destruct (c =? 92)%N.
+  - destruct t1 as [|d t2]; cbn [length] in *; [lia|]. specialize (IH t2). lia.
+  - specialize (IH t1). lia.
+Qed.
+(* the rest the model returns starts behind the position where the scan stopped *)
+Lemma rr_rest delim : forall n t, (length t <= n)%nat ->
+  snd (SubstDefs.re_read_loop delim t) = skipn (S (rr_stop delim t)) t.
+Proof.
+  induction n as [|n IH]; intros t H; destruct t as [|c t1]; cbn [length] in *; try lia; try reflexivity.
+  cbn [SubstDefs.re_read_loop rr_stop]. destruct (c =? delim)%N; [reflexivity|].
+  destruct (c =? 92)%N.
+  - destruct t1 as [|d t2]; [reflexivity|]. cbn [length] in H. specialize (IH t2 ltac:(lia)).
+    destruct (SubstDefs.re_read_loop delim t2) as [t r]. cbn [snd] in *.
+    destruct (d =? delim)%N; cbn [snd]; exact IH.
+  - specialize (IH t1 ltac:(lia)). destruct (SubstDefs.re_read_loop delim t1) as [t r]. exact IH.
+Qed.
+(* where the scan stops there is the delimiter or the end of the string *)
+Lemma rr_stop_at delim : forall n t, (length t <= n)%nat ->
+  rr_stop delim t = length t \/ nthb t (rr_stop delim t) = delim.
+Proof.
+  induction n as [|n IH]; intros t H; destruct t as [|c t1]; cbn [length] in *; try lia; try (left; reflexivity).
+  cbn [rr_stop]. destruct (N.eqb_spec c delim) as [->|Hc]; [right; reflexivity|].
+  destruct (c =? 92)%N.
+  - destruct t1 as [|d t2]; [left; reflexivity|]. cbn [length] in *. destruct (IH t2 ltac:(lia)) as [E|E]; [left; lia|right; exact E].
+  - destruct (IH t1 ltac:(lia)) as [E|E]; [left; lia|right; exact E].
+Qed.
+
+(* one step of the model at an offset of the string *)
+Lemma rr_at delim s q : (q < length s)%nat ->
+  rr_txt delim (skipn q s) =
+  (if (nthb s q =? delim)%N then []
+   else if (nthb s q =? 92)%N && negb (Nat.eqb (S q) (length s)) then
+     (if (nthb s (S q) =? delim)%N then nthb s (S q) :: rr_txt delim (skipn (S (S q)) s)
+      else 92%N :: nthb s (S q) :: rr_txt delim (skipn (S (S q)) s))
+   else nthb s q :: rr_txt delim (skipn (S q) s)) /\
+  rr_stop delim (skipn q s) =
+  (if (nthb s q =? delim)%N then 0%nat
+   else if (nthb s q =? 92)%N && negb (Nat.eqb (S q) (length s)) then S (S (rr_stop delim (skipn (S (S q)) s)))
+   else S (rr_stop delim (skipn (S q) s))).
+Proof.
+  intro H. rewrite (skipn_cons_nthb s q H). rewrite rr_txt_cons. cbn [rr_stop].
+  destruct (nthb s q =? delim)%N; [split; reflexivity|].
+  destruct (nthb s q =? 92)%N eqn:E92; cbn [andb]; [|split; reflexivity].
+  destruct (Nat.eqb_spec (S q) (length s)) as [L|L]; cbn [negb].
+  - rewrite skipn_end by lia. split; reflexivity.
+  - rewrite (skipn_cons_nthb s (S q)) by lia. split; reflexivity.
+Qed.
+
+(* a char promoted to int against an (unsigned char) delimiter below 128: equal exactly when the bytes are equal.
+   (For a delimiter byte of 128..255 the comparison `*s != delim` of the C text is always true where char is signed: the
+   scan would never stop at the delimiter; the theorems below are for delimiters below 128.) *)
+Lemma sx_cases : forall c, (c < 256)%N -> sx c = if (c <? 128)%N then Z.of_N c else Z.of_N c - 256.
+Proof. byte_fact. Qed.
+Lemma sx_eq_delim c d : (c < 256)%N -> (d < 128)%N -> (sx c =? Z.of_N d) = (c =? d)%N.
+Proof.
+  intros Hc Hd. rewrite (sx_cases c Hc).
+  destruct (N.ltb_spec c 128) as [L|L]; destruct (N.eqb_spec c d) as [E|E];
+    match goal with |- (?a =? ?b) = _ => destruct (Z.eqb_spec a b) end; try reflexivity; exfalso; lia.
+Qed.
+
+Lemma load_cell_of (m : mem) bp (blk : block) op v : nth_error m bp = Some blk -> 0 <= op ->
+  nth_error blk (Z.to_nat op) = Some v -> load m bp op = Ok v.
+Proof. intros Hm Ho Hv. unfold load. rewrite Hm. destruct (Z.ltb_spec op 0); [lia|]. rewrite Hv. reflexivity. Qed.
+
+Definition rr_loop : stmt :=
+  match fn_body cf_re_read with SSeq _ (SSeq _ (SSeq _ (SSeq _ (SSeq w _)))) => w | _ => SSkip end.
+
+(* ------------------------------------------------------------------ the scan of re_read against an ABSTRACT string buffer:
+   `Rep m cs` = "block p of memory m is a live sbuf that holds the cells cs"; the three functions of sbuf.c that re_read
+   calls are assumed to do what their names say (hypotheses H_make, H_chr, H_done; H_upd: a store into an older block does
+   not disturb the buffer).  The section is closed below with the theorems of TrSbuf.v about the translated sbuf.c. *)
+Section ReReadAbs.
+  Variable call : nat -> list val -> mem -> res (val * mem).
+  Variable m0 : mem.                          (* the memory at the call of re_read *)
+  Variable p : nat.                           (* the block of the struct sbuf *)
+  Variable Rep : mem -> list Z -> Prop.
+  Variable BOUND : nat.                       (* the buffer can take so many cells without an int overflow in NEXTSZ *)
+  (* the blocks that existed at the call are as they were *)
+  Definition Frame (m : mem) : Prop := forall b', (b' < length m0)%nat -> nth_error m b' = nth_error m0 b'.
+  Hypothesis H_make : exists m1, call F_sbuf_make [] m0 = Ok (VPtr p 0, m1) /\ Rep m1 [] /\ Frame m1.
+  Hypothesis H_chr : forall m cs c, Rep m cs -> Frame m -> 0 <= c <= 255 -> (length cs < BOUND)%nat ->
+    exists m', call F_sbuf_chr [VPtr p 0; VInt c] m = Ok (VUndef, m') /\ Rep m' (cs ++ [wrap I8 c]) /\ Frame m'.
+  Hypothesis H_upd : forall m cs bb blk, Rep m cs -> (bb < length m0)%nat -> Rep (upd m bb blk) cs.
+  Hypothesis H_done : forall m cs, Rep m cs ->
+    exists bo m' tail, call F_sbuf_done [VPtr p 0] m = Ok (VPtr bo 0, m') /\
+      nth_error m' bo = Some (map VInt cs ++ VInt 0 :: tail) /\ (length m0 <= bo)%nat /\
+      forall b', (b' < length m0)%nat -> nth_error m' b' = nth_error m b'.
+
+  Variable b : nat.
+  Variable s : bytes.
+  Hypothesis Hs : str_at m0 b s.
+  Hypothesis Hnn : nonul s.
+
+  Lemma frame_str m : Frame m -> str_at m b s.
+  Proof.
+    intro F. unfold str_at. rewrite F; [exact Hs|]. apply nth_error_Some. unfold str_at in Hs. congruence.
+  Qed.
+
+  Lemma rr_loop_ok vsrc delim : (delim < 128)%N -> delim <> 0%N ->
+    forall k q mk acc fuel, (length s - q <= k)%nat -> (q <= length s)%nat -> Rep mk acc -> Frame mk ->
+    (length acc + (length s - q) <= BOUND)%nat -> (k < fuel)%nat ->
+    exists mk',
+    exec call fuel rr_loop (mkst [vsrc; VPtr p 0; VPtr b (Z.of_nat q); VInt (Z.of_N delim)] mk)
+    = ONormal (mkst [vsrc; VPtr p 0; VPtr b (Z.of_nat (q + rr_stop delim (skipn q s))); VInt (Z.of_N delim)] mk')
+    /\ Rep mk' (acc ++ map sc (rr_txt delim (skipn q s))) /\ Frame mk'.
+  Proof.
+    intros Hd Hd0. pose proof (nonul_lt256 s Hnn) as H256.
+    induction k as [|k IH]; intros q mk acc fuel Hk Hq HR HF Hb Hf; (destruct fuel as [|fuel]; [lia|]);
+      pose proof (frame_str mk HF) as Hsk;
+      unfold rr_loop; cbn [fn_body cf_re_read]; rewrite exec_while; xstep;
+      rewrite (load_str mk b s _ q Hsk) by lia; xstep; fold_sx;
+      pose proof (nthb_lt256 s q H256) as Hc; rewrite (rs_eq_0 _ Hc).
+    - assert (q = length s) as -> by lia. rewrite nthb_end by lia. rewrite skipn_end by lia.
+      cbn [N.eqb negb rr_stop map]. unfold rr_txt. cbn [SubstDefs.re_read_loop fst map].
+      rewrite Nat.add_0_r, app_nil_r. exists mk. repeat split; assumption.
+    - destruct (Nat.eq_dec q (length s)) as [->|Hne].
+      { rewrite nthb_end by lia. rewrite skipn_end by lia.
+        cbn [N.eqb negb rr_stop map]. unfold rr_txt. cbn [SubstDefs.re_read_loop fst map].
+        rewrite Nat.add_0_r, app_nil_r. exists mk. repeat split; assumption. }
+      rewrite rs_nonul_nz by (auto; lia). cbn [negb].
+      rewrite (load_str mk b s _ q Hsk) by lia. xstep. fold_sx. rewrite (sx_eq_delim _ _ Hc Hd).
+      destruct (rr_at delim s q ltac:(lia)) as [Et Eo]. rewrite Et, Eo. clear Et Eo.
+      destruct (nthb s q =? delim)%N eqn:Edel; cbn [negb b2z]; xstep.
+      { cbn [map]. rewrite Nat.add_0_r, app_nil_r. exists mk. repeat split; assumption. }
+      at_off q. rewrite (load_str mk b s _ q Hsk) by lia. xstep. fold_sx. rewrite (rs_eq_92 _ Hc).
+      pose proof (nthb_lt256 s (S q) H256) as Hc1.
+      (* the common end of an iteration: sbuf_chr(sbuf, (unsigned char) *s++) at position q', then the loop again *)
+      assert (Tail : forall q' mk1 acc1 r, (q <= q' < length s)%nat -> Rep mk1 acc1 -> Frame mk1 ->
+        (length acc1 + (length s - q') <= BOUND)%nat -> r = (S q' + rr_stop delim (skipn (S q') s))%nat ->
+        exists mk',
+        match
+          exec call (S fuel) (SExpr (ECall F_sbuf_chr [ELocal 1; ECast I32 (ECast U8 (ELoad (Some I8) (EIncLocal true 2 None 1)))]))
+               (mkst [vsrc; VPtr p 0; VPtr b (Z.of_nat q'); VInt (Z.of_N delim)] mk1)
+        with
+        | ONormal st2 | OContinue st2 => exec call fuel rr_loop st2
+        | OBreak st2 => ONormal st2
+        | o => o
+        end = ONormal (mkst [vsrc; VPtr p 0; VPtr b (Z.of_nat r); VInt (Z.of_N delim)] mk')
+        /\ Rep mk' (acc1 ++ map sc (nthb s q' :: rr_txt delim (skipn (S q') s))) /\ Frame mk').
+      { intros q' mk1 acc1 r Hq' HR1 HF1 Hb1 ->. pose proof (frame_str mk1 HF1) as Hs1. xstep.
+        rewrite (load_str mk1 b s _ q' Hs1) by lia. xstep.
+        rewrite wrap_byte_chain by (apply nthb_lt256; exact H256).
+        pose proof (nthb_lt256 s q' H256) as Hcq.
+        destruct (H_chr mk1 acc1 (Z.of_N (nthb s q')) HR1 HF1 ltac:(lia) ltac:(lia)) as (mk2 & Ec & HR2 & HF2).
+        rewrite Ec. xstep. replace (Z.of_nat q' + 1) with (Z.of_nat (S q')) by lia.
+        destruct (IH (S q') mk2 (acc1 ++ [wrap I8 (Z.of_N (nthb s q'))]) fuel) as (mk' & X & Y & W);
+          try lia; try assumption; [rewrite app_length; cbn [length]; lia|].
+        exists mk'. split; [exact X|]. split; [|exact W].
+        cbn [map]. change (wrap I8 (Z.of_N (nthb s q'))) with (sc (nthb s q')) in Y.
+        rewrite <- app_assoc in Y. exact Y. }
+      unfold rr_loop in Tail; cbn [fn_body cf_re_read] in Tail.
+      destruct (nthb s q =? 92)%N eqn:E92; cbn [negb b2z andb]; xstep.
+      2:{ destruct (Tail q mk acc (q + S (rr_stop delim (skipn (S q) s)))%nat ltac:(lia) HR HF Hb ltac:(lia)) as (mk' & X & Y & W).
+          exists mk'. split; [exact X|split; assumption]. }
+      replace (Z.of_nat q + 1 * 1) with (Z.of_nat (S q)) by lia.
+      rewrite (load_str mk b s _ (S q) Hsk) by lia. xstep. fold_sx. rewrite (rs_eq_0 _ Hc1).
+      destruct (Nat.eqb_spec (S q) (length s)) as [L|L]; cbn [negb].
+      { rewrite nthb_end by lia. cbn [N.eqb negb b2z]. xstep.
+        destruct (Tail q mk acc (q + S (rr_stop delim (skipn (S q) s)))%nat ltac:(lia) HR HF Hb ltac:(lia)) as (mk' & X & Y & W).
+        exists mk'. split; [exact X|split; assumption]. }
+      rewrite rs_nonul_nz by (auto; lia). cbn [negb b2z]. xstep.
+      replace (Z.of_nat q + 1) with (Z.of_nat (S q)) by lia.
+      rewrite (load_str mk b s _ (S q) Hsk) by lia. xstep. fold_sx. rewrite (sx_eq_delim _ _ Hc1 Hd).
+      destruct (nthb s (S q) =? delim)%N eqn:Ed1; cbn [negb b2z]; xstep.
+      { (* an escaped delimiter: the backslash is dropped *)
+        destruct (Tail (S q) mk acc (q + S (S (rr_stop delim (skipn (S (S q)) s))))%nat ltac:(lia) HR HF ltac:(lia) ltac:(lia)) as (mk' & X & Y & W).
+        exists mk'. split; [exact X|split; assumption]. }
+      (* a backslash before anything else: both are kept *)
+      destruct (H_chr mk acc 92 HR HF ltac:(lia) ltac:(lia)) as (mk1 & Ec & HR1 & HF1).
+      rewrite Ec. xstep.
+      destruct (Tail (S q) mk1 (acc ++ [wrap I8 92]) (q + S (S (rr_stop delim (skipn (S (S q)) s))))%nat ltac:(lia) HR1 HF1) as (mk' & X & Y & W);
+        [rewrite app_length; cbn [length]; lia|lia|].
+      exists mk'. split; [|split; [|exact W]].
+      + exact X.
+      + change (wrap I8 92) with (sc 92%N) in Y. rewrite <- app_assoc in Y. exact Y.
+  Qed.
+
+  (* the whole body of re_read.  *src is cell op of block bp; it holds a pointer to offset o of the string. *)
+  Theorem re_read_abs bp op (blk : block) o fuel :
+    nth_error m0 bp = Some blk -> 0 <= op -> nth_error blk (Z.to_nat op) = Some (VPtr b (Z.of_nat o)) ->
+    (o <= length s)%nat -> (nthb s o < 128)%N -> (length s <= BOUND)%nat -> (length s < fuel)%nat ->
+    match SubstDefs.re_read (skipn o s) with
+    | None => exec call fuel (fn_body cf_re_read) (mkst [VPtr bp op; VUndef; VUndef; VUndef] m0)
+              = OReturn (VInt 0) (mkst [VPtr bp op; VUndef; VPtr b (Z.of_nat o + 1); VInt 0] m0)
+    | Some (txt, rest) =>
+        exists bo m' tail o' st',
+        exec call fuel (fn_body cf_re_read) (mkst [VPtr bp op; VUndef; VUndef; VUndef] m0) = OReturn (VPtr bo 0) st' /\
+        memm st' = m' /\
+        nth_error m' bo = Some (map cell txt ++ VInt 0 :: tail) /\ (length m0 <= bo)%nat /\
+        nth_error m' bp = Some (upd blk (Z.to_nat op) (VPtr b (Z.of_nat o'))) /\ (o' <= length s)%nat /\ skipn o' s = rest /\
+        forall b', (b' < length m0)%nat -> b' <> bp -> nth_error m' b' = nth_error m0 b'
+    end.
+  Proof.
+    intros Hbp Hop Hcell Ho Hd Hb Hf. pose proof (nonul_lt256 s Hnn) as H256.
+    cbn [fn_body cf_re_read]. xstep.
+    rewrite (load_cell_of m0 bp blk op _ Hbp Hop Hcell). xstep.
+    rewrite (load_str m0 b s _ o Hs) by lia. xstep.
+    rewrite wrap_byte_chain by (apply nthb_lt256; exact H256).
+    destruct (Nat.eq_dec o (length s)) as [->|Hne].
+    { rewrite nthb_end by lia. rewrite skipn_end by lia. cbn [SubstDefs.re_read]. cbn [Z.of_N Z.eqb negb b2z]. xstep. reflexivity. }
+    rewrite (skipn_cons_nthb s o) by lia. cbn [SubstDefs.re_read].
+    set (delim := nthb s o) in *.
+    assert (Hd0 : delim <> 0%N) by (intro Z0; pose proof (rs_nonul_nz s o Hnn ltac:(lia)) as X; fold delim in X; rewrite Z0 in X; discriminate).
+    replace (Z.of_N delim =? 0) with false by (symmetry; apply Z.eqb_neq; lia). cbn [negb b2z]. xstep.
+    destruct H_make as (m1 & Em & HR1 & HF1). rewrite Em. xstep.
+    replace (Z.of_nat o + 1) with (Z.of_nat (S o)) by lia.
+    destruct (rr_loop_ok (VPtr bp op) delim Hd Hd0 (length s) (S o) m1 [] fuel) as (m2 & El & HR2 & HF2);
+      try lia; try assumption; [cbn [length]; lia|].
+    unfold rr_loop in El; cbn [fn_body cf_re_read] in El. rewrite El. clear El. xstep.
+    cbn [app] in HR2.
+    pose proof (rr_stop_le delim (length s) (skipn (S o) s) ltac:(rewrite skipn_length; lia)) as Lst. rewrite skipn_length in Lst.
+    set (q' := (S o + rr_stop delim (skipn (S o) s))%nat) in *.
+    pose proof (frame_str m2 HF2) as Hs2.
+    rewrite (load_str m2 b s _ q' Hs2) by lia. xstep. fold_sx. rewrite (rs_eq_0 _ (nthb_lt256 s q' H256)).
+    (* the store *src = ... into block bp of m2 *)
+    assert (Hbp2 : nth_error m2 bp = Some blk) by (rewrite HF2; [exact Hbp|apply nth_error_Some; congruence]).
+    assert (Hlt : (bp < length m0)%nat) by (apply nth_error_Some; congruence).
+    assert (Hopl : 0 <= op < Z.of_nat (length blk)).
+    { split; [exact Hop|]. assert (Z.to_nat op < length blk)%nat by (apply nth_error_Some; congruence). lia. }
+    assert (Fin : forall o', (o' <= length s)%nat -> skipn o' s = snd (SubstDefs.re_read_loop delim (skipn (S o) s)) ->
+      exists bo m3 m' tail,
+      store m2 bp op (VPtr b (Z.of_nat o')) = Ok m3 /\ call F_sbuf_done [VPtr p 0] m3 = Ok (VPtr bo 0, m') /\
+      nth_error m' bo = Some (map cell (rr_txt delim (skipn (S o) s)) ++ VInt 0 :: tail) /\ (length m0 <= bo)%nat /\
+      nth_error m' bp = Some (upd blk (Z.to_nat op) (VPtr b (Z.of_nat o'))) /\
+      forall b', (b' < length m0)%nat -> b' <> bp -> nth_error m' b' = nth_error m0 b').
+    { intros o' Ho' Hrest. rewrite (store_ok m2 bp blk op _ Hbp2 Hopl).
+      pose proof (H_upd m2 _ bp (upd blk (Z.to_nat op) (VPtr b (Z.of_nat o'))) HR2 Hlt) as HR3.
+      destruct (H_done _ _ HR3) as (bo & m4 & tail & Ed & Hbo & Lbo & Hfr).
+      exists bo, (upd m2 bp (upd blk (Z.to_nat op) (VPtr b (Z.of_nat o')))), m4, tail.
+      split; [reflexivity|]. split; [exact Ed|].
+      split; [rewrite Hbo; unfold cell; rewrite map_map; reflexivity|]. split; [exact Lbo|].
+      assert (Hl2 : (length m0 <= length m2)%nat).
+      { destruct (Nat.le_gt_cases (length m0) (length m2)) as [L|L]; [exact L|].
+        exfalso. pose proof (HF2 (length m2) L) as X. rewrite (proj2 (nth_error_None m2 (length m2)) (le_n _)) in X.
+        symmetry in X. apply nth_error_None in X. lia. }
+      split.
+      - rewrite Hfr by exact Hlt. apply mem_upd_same. lia.
+      - intros b' Hb' Hne'. rewrite Hfr by exact Hb'. rewrite mem_upd_other by (try lia; exact Hne'). apply HF2. exact Hb'. }
+    pose proof (rr_rest delim (length s) (skipn (S o) s) ltac:(rewrite skipn_length; lia)) as Hrest.
+    rewrite skipn_skipn in Hrest.
+    destruct (SubstDefs.re_read_loop delim (skipn (S o) s)) as [txt rest] eqn:Erl.
+    assert (Etxt : rr_txt delim (skipn (S o) s) = txt) by (unfold rr_txt; rewrite Erl; reflexivity).
+    cbn [snd] in *. rewrite Etxt in Fin.
+    destruct (Nat.eq_dec q' (length s)) as [Eq|Eq].
+    - rewrite nthb_end by lia. cbn [N.eqb negb]. xstep.
+      destruct (Fin q' ltac:(lia)) as (bo & m3 & m' & tail & X1 & X2 & X3 & X4 & X5 & X6).
+      { rewrite Hrest. rewrite !skipn_end by lia. reflexivity. }
+      rewrite X1. xstep. rewrite X2. xstep.
+      exists bo, m', tail, q'. eexists.
+      split; [reflexivity|]. split; [reflexivity|]. split; [exact X3|]. split; [exact X4|]. split; [exact X5|]. split; [lia|]. split; [|exact X6].
+      rewrite Hrest. rewrite !skipn_end by lia. reflexivity.
+    - rewrite rs_nonul_nz by (auto; lia). cbn [negb]. xstep.
+      replace (Z.of_nat q' + 1 * 1) with (Z.of_nat (S q')) by lia.
+      destruct (Fin (S q') ltac:(lia)) as (bo & m3 & m' & tail & X1 & X2 & X3 & X4 & X5 & X6).
+      { rewrite Hrest. f_equal. lia. }
+      rewrite X1. xstep. rewrite X2. xstep.
+      exists bo, m', tail, (S q'). eexists.
+      split; [reflexivity|]. split; [reflexivity|]. split; [exact X3|]. split; [exact X4|]. split; [exact X5|]. split; [lia|]. split; [|exact X6].
+      rewrite Hrest. f_equal. lia.
+  Qed.
+End ReReadAbs.
